@@ -71,6 +71,7 @@ func c10leave() { c10inflight = "" }
 type c10stack struct {
 	s  *stack.Stack[int]
 	st *Stats
+	lg lgTrack
 }
 
 func (r *c10stack) Exec(op []string) string {
@@ -82,7 +83,35 @@ func (r *c10stack) Exec(op []string) string {
 			} else {
 				r.s = &stack.Stack[int]{}
 			}
+			r.lg.reset()
 			return "-"
+		case "pushn", "addn":
+			// bulk form of push/add for the large cases: op[2] single calls with the values op[1], op[1]+1, …;
+			// one observation of the whole state at the end
+			a, n := atoi(op[1]), atoi(op[2])
+			for i := 0; i < n; i++ {
+				if op[0] == "pushn" {
+					r.s.Push(a + i)
+				} else {
+					r.s.Add(a + i)
+				}
+				r.lg.see(r.st, "stack", r.s.Len())
+			}
+			return "-"
+		case "popn":
+			// bulk form of pop: op[1] single calls; reports value, ok, Len and Top after every one of them
+			var sb strings.Builder
+			sb.WriteByte('[')
+			for i, n := 0, atoi(op[1]); i < n; i++ {
+				if i > 0 {
+					sb.WriteByte(' ')
+				}
+				v, ok := r.s.Pop()
+				fmt.Fprintf(&sb, "%s,%d,%d", fmtPop(v, ok), r.s.Len(), r.s.Top())
+				r.lg.see(r.st, "stack", r.s.Len())
+			}
+			sb.WriteByte(']')
+			return sb.String()
 		case "push":
 			r.s.Push(atoi(op[1]))
 			return "-"
@@ -128,10 +157,118 @@ func (r *c10stack) Exec(op []string) string {
 		return "bad-op"
 	})
 	s := r.s
+	r.lg.see(r.st, "stack", s.Len())
 	return fmt.Sprintf("%s len=%d empty=%s top=%d slice=%s", res, s.Len(), fmtBool(s.IsEmpty()), s.Top(), fmtInts(s.Slice()))
 }
 
+// c10seq builds a history that moves a LIFO/FIFO container through a schedule of sizes: in bulk (pushn/popn)
+// or with single operations, observing the whole state at every size it stops at.
+type c10seq struct {
+	ops        []string
+	n, next    int
+	bulk       bool
+	grow, more string // single grow op, bulk grow op ("" when the stream has none)
+	pop, popn  string
+}
+
+func (b *c10seq) add(format string, a ...any) { b.ops = append(b.ops, fmt.Sprintf(format, a...)) }
+
+// to changes the size to target.
+func (b *c10seq) to(target int) {
+	switch d := target - b.n; {
+	case d > 1 && b.bulk:
+		b.add("%s %d %d", b.more, b.next, d)
+		b.next += d
+	case d > 0:
+		for i := 0; i < d; i++ {
+			b.add("%s %d", b.grow, b.next)
+			b.next++
+		}
+	case d < -1 && b.bulk:
+		b.add("%s %d", b.popn, -d)
+	case d < 0:
+		for i := 0; i < -d; i++ {
+			b.add("%s", b.pop)
+		}
+	}
+	b.n = target
+}
+
+// up and down walk through the observation points of lgPoints between the current size and target.
+func (b *c10seq) up(target, small int) {
+	for _, p := range lgPoints(target, small) {
+		if p > b.n {
+			b.to(p)
+		}
+	}
+}
+
+func (b *c10seq) down(target, small int) {
+	pts := lgPoints(b.n, small)
+	for i := len(pts) - 1; i >= 0; i-- {
+		if pts[i] < b.n && pts[i] >= target {
+			b.to(pts[i])
+		}
+	}
+	b.to(target)
+}
+
+// genC10stackLarge: stacks that grow past a size threshold and are drained below a quarter of it (seeded change
+// C10-stack-pop-shrink-doubles: Pop reallocates once cap > 32 and len < cap/4), from the zero value and New, by
+// Push and by Add, in bulk and one element at a time, then regrown, cleared and regrown again.
+func genC10stackLarge(g *G) {
+	type lc struct {
+		n    int
+		bulk bool
+	}
+	var cs []lc
+	for _, n := range []int{33, 65, 130, 257, 520, 1025} {
+		cs = append(cs, lc{n, true})
+	}
+	for _, n := range []int{33, 40, 65, 130} {
+		cs = append(cs, lc{n, false})
+	}
+	if g.Thorough() {
+		for _, n := range []int{34, 64, 66, 129, 256, 300, 513, 700, 849, 1024, 1281, 2049, 4097, 4100, 5121} {
+			cs = append(cs, lc{n, true})
+		}
+		for _, n := range []int{34, 64, 66, 129, 257, 300, 513} {
+			cs = append(cs, lc{n, false})
+		}
+	}
+	for _, c := range cs {
+		route := g.Intn(4)
+		b := &c10seq{next: 1, bulk: c.bulk, grow: "push", more: "pushn", pop: "pop", popn: "popn"}
+		if route&1 == 1 {
+			b.grow, b.more = "add", "addn"
+		}
+		b.add("reset %s", []string{"zero", "new"}[route>>1])
+		N := c.n
+		b.up(N, 12)
+		b.add("peek %d", N-1)
+		b.add("peek %d", N)
+		b.add("peek %d", N/2)
+		b.add("each %d", 2)
+		b.down(0, 40) // every size from 40 down is observed after a single pop
+		b.add("%s", b.pop)
+		// carry-over: the drained stack is used again — regrow to a half, drain below a quarter, past N, Clear, regrow
+		b.up(N/2+1, 0)
+		b.down(N/4-1, 20)
+		b.up(N+1+g.Intn(3), 0)
+		b.add("peek %d", b.n-1)
+		if g.Chance(1, 2) {
+			b.add("clear")
+			b.n = 0
+			b.up(33+g.Intn(8), 0)
+		}
+		b.down(0, 20)
+		b.add("top")
+		g.Each(b.ops)
+	}
+}
+
 func genC10stack(g *G) {
+	genC10stackLarge(g)
 	cases := g.Scale(300, 6000)
 	maxOps := g.Scale(60, 300)
 	next := 1
